@@ -89,9 +89,13 @@ Definition calc_warn_limit (limit : Z) (abs pct gl : option Z) : Z :=
       end
   end.
 
-(* does a count inside the limit reach the warn point?  (mod.rs:174, 207) *)
+(* does a count inside the limit reach the warn point?  reaches_warn_point (mod.rs): an absolute
+   warn count is inclusive, a percentage warn point exclusive *)
 Definition warn_reached (count limit : Z) (abs pct gl : option Z) : bool :=
-  calc_warn_limit limit abs pct gl <? count.
+  match abs with
+  | Some _ => calc_warn_limit limit abs pct gl <=? count
+  | None => calc_warn_limit limit abs pct gl <? count
+  end.
 
 Definition lv (p : path) (k : vkind) (actual limit : Z) (w : bool) : violation :=
   mk_violation p k actual limit w None.
@@ -137,11 +141,11 @@ Definition check_all (cfg : config) (scope_of : path -> list bool) (m : dmap) : 
 
 (* ---- explain ---- *)
 Record explanation := mk_expl {
-  x_matched : option Z;              (* index of the rule named, None = [structure] defaults *)
-  x_max_files : option Z;
-  x_max_dirs : option Z;
-  x_max_depth : option Z;
-  x_warn_threshold : Z               (* bits *)
+  ex_matched : option Z;              (* index of the rule named, None = [structure] defaults *)
+  ex_max_files : option Z;
+  ex_max_dirs : option Z;
+  ex_max_depth : option Z;
+  ex_warn_threshold : Z               (* bits *)
 }.
 
 (* explain computes the matched index on its own (enumerate().rev().find) and the limits through
